@@ -1,6 +1,10 @@
 package main
 
-import "strings"
+import (
+	"strings"
+
+	"golang.org/x/tools/go/ssa"
+)
 
 func init() {
 	register("C02", "Decides structural necessary conditions of the update laws (put-get, get-put, put-put, frame): (U1) UpdateFrom/UpdateAttributesFrom store nothing of the assigned value into the target except scalars, fresh deep copies and the Alias pointer, and UpdateFrom replaces Kind, Content and Value on every path except self-assignment; (U2) their write footprint is the receiver itself, and everything the ASSIGN / ASSIGN_ATTRIBUTES handlers write goes through them on a match or is auto-creation guarded by !DontAutoCreate; (U3 = R1) every operand that is evaluated read-only on the pinned tree — the RHS of plain `=`, index expressions, operands of arithmetic etc. — still is, so reading the new value cannot create paths; (U4) `p op= e` applies the operator to a Copy() of the match, not to the node it overwrites. Does NOT decide the laws as value equalities, padding of sequences, multi-match order, nor |= first-result semantics.", runC02)
@@ -139,6 +143,10 @@ func runC04(c *Ctx) {
 	ruleM8(c, "M8")
 	r.Rule("M9", "a kind change drops the old children before the new kind is stored", 1)
 	ruleU7(c, "M9")
+	r.Rule("M10", "merge applies every descendant of the right operand except merge-key entries", 1)
+	ruleNoFilter(c, "M10", "mergeObjects", map[string]bool{"applyAssignment": true}, func(cond ssa.Value, elem ssa.Value) bool {
+		return isTagEquals(cond, elem, "!!merge")
+	}, "part of the right operand is not merged in (b's nulls no longer overwrite a's values, …)")
 }
 
 func runC16(c *Ctx) {
